@@ -135,3 +135,22 @@ PROPS["C02"] = {
     "uncovered": ["translation invariance of the drift basis for order 2 (tested only up to order 1)", "moving neighbourhoods (relations are run in unique neighbourhood)"],
     "assumptions": [],
 }
+
+PROPS["C13"] = {
+    "module": "GstProofs.Props.C13",
+    "theorems": [
+        "GstProofs.C13.p_prime", "GstProofs.C13.det", "GstProofs.C13.next_range", "GstProofs.C13.unif_range",
+        "GstProofs.C13.next_injective", "GstProofs.C13.streams_differ", "GstProofs.C13.exact_conditioning",
+        "GstProofs.C13.clamp_bounds",
+    ],
+    "harnesses": ["vh_c13"],
+    "level": "proof",
+    "technique": "Lean 4 model of the congruential generator (primality of the modulus, range, injectivity of the step, determinism after seeding), of the conditioning step and of the final clamp of bounded Gaussian draws; exact differential correspondence of the generator stream; seed-reproducibility, seed/rank sensitivity, conditioning at data and bound membership observed on the real simulators",
+    "level_text": "Partial proof: generator facts, determinism, exact conditioning at data (given exact kriging weights, C02) and bound membership of clamped draws are theorems; the generator stream of the library is compared exactly with the model; turning bands (conditional and not) and FFT simulators are run twice per seed (bit-identical), with different seeds / ranks (different), with targets on data (datum reproduced); bounded Gaussian draws are checked to lie in their bounds exactly, including bounds a few ulps apart.",
+    "level_note": "Trusted: Lean kernel + 3 standard axioms; the simulators themselves are not modelled (only the generator, the conditioning formula and the clamp); SPDE, Gibbs and plurigaussian simulators are not yet exercised; the std::mt19937 'new style' generator is library code.",
+    "rule": "40 seeds (below / above the modulus, near 2^31, non-positive, multiples of the modulus) x 300 draws compared exactly with the model; 60 bound sets x 2000 bounded Gaussian draws; per generated model (1-2D, 1-3 nested structures): turning bands twice with the same seed after unrelated generator use, with another seed, several ranks, FFT twice, conditional turning bands with targets on the data. distinct = distinct request line",
+    "trivial": lambda line: False,
+    "trusted_base": TB_COMMON,
+    "uncovered": ["simulateSPDE, gibbs_sampler, simpgs/simbipgs (facies at data) are not exercised yet", "floating-point rounding inside law_gaussian_between_bounds before the clamp"],
+    "assumptions": [],
+}
